@@ -76,6 +76,16 @@ InvalidObserved(case, E, FinalAt(_)) ==
 
 Modes == {"install", "dryrun", "template", "upgrade", "upgradedry", "lint"}
 
+\* the same operations through the command line (pkg/cmd) and the action each one dispatches to:
+\* `helm install --dry-run=server`, `helm template` and `helm upgrade --install` on a release that does not
+\* exist (empty history, or last revision uninstalled with --keep-history) all run the install action
+CliModes == {"cli-install", "cli-dryrun", "cli-template", "cli-upgrade", "cli-upinstall-empty",
+             "cli-upinstall-uninstalled", "cli-lint"}
+AllModes == Modes \cup CliModes
+Dispatch(m) == CASE m = "cli-install" -> "install" [] m = "cli-dryrun" -> "dryrun" [] m = "cli-template" -> "template"
+                 [] m = "cli-upgrade" -> "upgrade" [] m = "cli-upinstall-empty" -> "install"
+                 [] m = "cli-upinstall-uninstalled" -> "install" [] m = "cli-lint" -> "lint" [] OTHER -> m
+
 St(l, w) == [l |-> l, w |-> w]
 HasCrds(case) == \E P \in ExpE(case) : case.charts[ChartAt(case, P)].crds
 
@@ -111,7 +121,7 @@ KnownGateShape(mode, crds) == mode = "install" /\ crds
 SchemaInv ==
   (Complete /\ WFCase(Case)) =>
      /\ AgreeEnabled(Case)                    \* the C14 space keeps enabling unambiguous
-     /\ \A m \in Modes : GateFirstFor(m, HasCrds(Case)) \/ KnownGateShape(m, HasCrds(Case))
+     /\ \A m \in AllModes : GateFirstFor(Dispatch(m), HasCrds(Case)) \/ KnownGateShape(Dispatch(m), HasCrds(Case))
 
 SchemaExport ==
   IF Complete /\ WFCase(Case)
